@@ -1,5 +1,13 @@
 # executed by mkmanifest.py: claim(id, category, text, note, design_ref) / NA[id] = reason
 MC = "model_checking"
+claim("C01", "translation_validation",
+      "Relational symbolic execution of the real artela code against the real go-ethereum v1.12.0 code on identical symbolic inputs: (a) one arbitrary instruction from one arbitrary machine state (stack words, memory, gas, code bytes, calldata, static flag, block context) through the real interpreter loops of both, for every opcode byte of the fork's table except Artela's 0xe0-0xe7; (b) each of the six frame routines on arbitrary arguments with the same arbitrary callee on both sides, artela running with its tracer and call tree, join points off or on with nothing bound. Observables: return data, error class, created address, world-state effects in order, snapshot/revert activity, stack and memory after the instruction.",
+      "Step and frame obligations only; equality for whole programs follows by induction over steps and nesting (paper argument in DESIGN.md). Quick: Shanghai table + Shanghai/Frontier frames; thorough adds Frontier and Berlin tables, Spurious-Dragon and Berlin frames and the call-family opcodes through real nested frames. Hash/curve kernels are uninterpreted functions shared by both sides; memory <= 1 word + expansion <= 160 B; 0x64-0x66 excluded (not standard precompiles).",
+      "DESIGN.md 3/C01")
+claim("C02", "translation_validation",
+      "Same relational harnesses, gas observables: gas remaining before the instruction and cost charged for it (per-instruction callback), gas left after the instruction, gas handed back by every frame routine, for symbolic 64-bit gas - so 'out of gas at the same instruction for every gas limit' is part of the step obligation; refund counter changes are compared as world events.",
+      "As C01. Warm/cold access-list state and storage originals are arbitrary but equal on both sides (same uninterpreted readers).",
+      "DESIGN.md 3/C02")
 claim("C03", MC,
       "Panic-freedom and closed bookkeeping decided by the solver over the real code of the journal instructions, the memory-name loader, the Artela precompile bodies and the CALL frame routine: every slice/index/nil/division/make obligation on every feasible path is a query; unsat for all of them within the stated buffer bounds.",
       "Bounds: byte buffers <= 96..160 B (thorough up to 352 B), one instruction / one frame from an arbitrary state; host StateDB, Aspect runtime and hashing are stubs/uninterpreted; panics inside summarised library kernels are not modelled.",
@@ -48,9 +56,9 @@ claim("C14", MC,
       "Run/RequiredGas of the three Artela precompiles and loadParamBytes on a symbolic payload against a non-wrapping ABI oracle: host gets exactly the decoded address/key/hash/(key,value), attribution to the caller context, fixed fee, malformed payloads rejected, no panic.",
       "Payload <= 160 B quick / 352 B thorough, ABI head and length words fully symbolic 256-bit.",
       "DESIGN.md 3/C14")
-claim("C18", MC,
-      "Only the artela-specific half so far: start/end and enter/exit of the debug tracer stay balanced on every path of the CALL frame, including join-point failures. The relational comparison with go-ethereum is not built yet.",
-      "CALL frame only.",
+claim("C18", "translation_validation",
+      "Relational: the same symbolic machine state / frame arguments are executed by the artela code and by the go-ethereum v1.12.0 code (module cache, same cut points regenerated each run) and the complete stream of debug-tracer callbacks is compared: every per-instruction callback (pc, opcode, gas, cost, depth, error, stack, memory, return-data buffer) and every start/end/enter/exit with its arguments; plus, artela-only, start/end and enter/exit stay balanced on every path of the CALL and CREATE frames under join-point failures.",
+      "One instruction from an arbitrary state for every opcode byte (Shanghai table quick; Frontier and Berlin tables thorough) and one frame per routine (Shanghai, Frontier quick); the induction over steps and nesting depth is on paper. The ported tracer packages (struct logger, prestate, 4byte, mux) are compared only through this event stream, not method by method; JSON encoding is outside.",
       "DESIGN.md 3/C18")
 claim("C20", MC,
       "Work counters (state reads counted by the stub, bytes allocated/copied accumulated by the engine as terms) asserted against a bound for the journal instructions, the memory-name loader and the Artela precompiles.",
@@ -68,9 +76,10 @@ claim("C19", MC,
       "Well-nested symbolic event streams (several Aspects on one join point, calls issued from inside an Aspect, child and grandchild frames, deep chains with several children) driven into the real callTracer and flatCallTracer: no panic, every frame and Aspect execution emitted once with its own gas/output/error, flat sub-trace counts equal emitted children, trace addresses unique and prefix-closed.",
       "Quick: <=2 Aspects on the pre join point, 1 on post, <=1 call inside an Aspect, 1 child (+grandchild), chains to depth 4 with 3 children; thorough: 3/2/2/2, depth 8. JSON marshalling and ABI revert decoding are opaque.",
       "DESIGN.md 3/C19")
+claim("C17", "other",
+      "Reduction decided per unit, not an exploration of schedules: (1) isolation: in every journal, frame, precompile and step harness each write of the code under test to memory created by package initialisation (tables, shared constants, precompile instances) is a reported violation, and two EVM instances are shown to share no tracer/interpreter structure - instances without shared mutable memory cannot race and every interleaving equals the sequential run; (2) the abort flag is a sync/atomic.Bool and every use of it in the package is the receiver of one of its methods (checked on the SSA of the current tree); (3) a jump executed while the flag's Load answers arbitrarily-but-monotonically (Cancel from another goroutine at any moment) or after Cancel: no panic, bookkeeping closed, the frame stops at that jump without charging a further instruction.",
+      "No goroutine scheduler and no Go memory model are encoded; races inside dependencies (host StateDB, crypto pools, Aspect runtime) are not seen; 'promptly' is 'at the next jump of each open frame'.",
+      "DESIGN.md 3/C17")
 for pid, why in {
-    "C01": "relational harnesses against go-ethereum v1.12.0 not built yet in this session (planned: same engine, twin harness in the upstream package)",
-    "C02": "as C01 (gas relational checks not built yet)",
-    "C17": "no goroutine scheduler or memory model is encodable in this engine; the planned reduction (write-set separation + atomic flag) is not built yet",
 }.items():
     NA[pid] = why
